@@ -117,7 +117,10 @@ func init() {
 			e.advanceClock(st, nil)
 			return nil
 		}
-		I["time.Sleep"] = func(e *Engine, st *State, th *Thread, fn *ssa.Function, a []Value, in *ssa.Call) Value {
+		I[vrtPath+".Timed"] = func(e *Engine, st *State, th *Thread, fn *ssa.Function, a []Value, in *ssa.Call) Value {
+			return term.BoolC(e.Timed)
+		}
+		I[ModulePath+"/zzverif/models.sleepNow"] = func(e *Engine, st *State, th *Thread, fn *ssa.Function, a []Value, in *ssa.Call) Value {
 			now := st.Clock
 			if now == nil {
 				now = term.BVC(64, 0)
